@@ -651,27 +651,36 @@ def resolveArg (cfg : Cfg) (comparison : Option Op) (arg : Arg) : Option Op × O
       (some .notin, some (.notin, .coll [notinStr]))
     else (some op, some (op, a))
 
-/-- the selection built by the `for kw,arg in kwargs.items()` loop -/
+/-- the rows one keyword contributes: the body of `for kw,arg in kwargs.items()` given the value
+`comparison` has when the keyword is reached -/
+def kwHere (cfg : Cfg) (t : Table) (lohis : List (Nat × List (Nat × Nat))) (n : Nat)
+    (comparison : Option Op) (kw : Nat) (arg : Arg) : Except Err (List Nat) := do
+  let s ← t.col kw
+  match arg, (resolveArg cfg comparison arg).2 with
+    | .fn p, _ => do let col ← s.toList; scanFilter 0 col (fun c => .ok (p.eval c))
+    | _, some (op, a) =>
+      if t.indexes.contains kw && op ≠ .mtch then do
+        let segs ← dictGet lohis kw
+        let rs ← segs.mapM (fun (p : Nat × Nat) => compareBisect cfg s p.1 p.2 op a)
+        pure ((rs.flatMap id).flatMap rangeOf)
+      else do
+        let col ← s.toList
+        let col' := col.take n
+        compareScan cfg col' op a
+    | _, Option.none => .error .other
+
+/-- the selection built by the `for kw,arg in kwargs.items()` loop; `comparison` is threaded
+through the keywords as the code does (overwritten by a dict argument unless repaired) -/
 def whereLoop (cfg : Cfg) (t : Table) (lohis : List (Nat × List (Nat × Nat))) (n : Nat) :
     Option Op → List (Nat × Arg) → Except Err (List Nat)
   | _, [] => .ok []
-  | comparison, (kw, arg) :: rest => do
-    let (cmp', resolved) := resolveArg cfg comparison arg
-    let s ← t.col kw
-    let here ← match arg, resolved with
-      | .fn p, _ => do let col ← s.toList; scanFilter 0 col (fun c => .ok (p.eval c))
-      | _, some (op, a) =>
-        if t.indexes.contains kw && op ≠ .mtch then do
-          let segs ← dictGet lohis kw
-          let rs ← segs.mapM (fun (p : Nat × Nat) => compareBisect cfg s p.1 p.2 op a)
-          pure ((rs.flatMap id).flatMap rangeOf)
-        else do
-          let col ← s.toList
-          let col' := col.take n
-          compareScan cfg col' op a
-      | _, Option.none => .error .other
-    let more ← whereLoop cfg t lohis n (if cfg.localOp then comparison else cmp') rest
-    pure (here ++ more)
+  | comparison, (kw, arg) :: rest =>
+    match kwHere cfg t lohis n comparison kw arg with
+    | .error e => .error e
+    | .ok here =>
+      match whereLoop cfg t lohis n (if cfg.localOp then comparison else (resolveArg cfg comparison arg).1) rest with
+      | .error e => .error e
+      | .ok more => .ok (here ++ more)
 
 /-- `Table.where(row_pred, comparison, **kwargs)`; `none` for "returns self" is not modelled
 (the harness always passes a predicate or a keyword) -/
@@ -903,6 +912,149 @@ def filterRows (test : List Cell → Except Err Bool) : List (List Cell) → Exc
 under a plain row-by-row evaluation -/
 def whereS (t : RowTable) (conds : List Cond) : Except Err (List (List Cell)) :=
   filterRows (fun r => satRow t.columns r conds) t.rows
+
+
+/-! ## Well-formedness of a `where` call (the hypotheses of `where_eq_spec`, as a decidable check)
+
+Each conjunct is forced: without it the code of the pinned tree (or any tree) answers differently
+from the plain evaluation; see the `_counterexample` theorems in `Props/C17.lean`. -/
+
+/-- the cell at `i` (only used below `xs.length`) -/
+def cellAt (xs : List Cell) (i : Nat) : Cell := xs.getD i .missing
+
+
+/-- operator and argument fit: a value for the six comparisons, a collection for `in` / `!in` -/
+def argShape : Op → ArgV → Bool
+  | .isin, .coll _ => true
+  | .notin, .coll _ => true
+  | .isin, .scalar _ => false
+  | .notin, .scalar _ => false
+  | .mtch, _ => false
+  | _, .scalar _ => true
+  | _, .coll _ => false
+
+def probesOf : ArgV → List Cell
+  | .scalar v => [v]
+  | .coll vs => vs
+
+
+/-- the row numbers of the underlying lists a selection shows, in order -/
+def Sel.idx (sel : Sel) (N : Nat) : List Nat :=
+  match sel with
+  | .all => List.range N
+  | .slice a b => List.range' a (b - a)
+  | .list ix => ix
+
+
+def viewOf (base : List Cell) (sel : Sel) : List Cell := (sel.idx base.length).map (cellAt base)
+
+
+/-- the stored list of column `c` (empty if there is none) -/
+def Table.base (t : Table) (c : Nat) : List Cell :=
+  match lookupCol t.data c with
+  | .ok b => b
+  | .error _ => []
+
+/-- column `c` as the table shows it -/
+def Table.vcol (t : Table) (c : Nat) : List Cell := viewOf (t.base c) t.sel
+
+
+/-- number of rows the table shows -/
+def Table.m (t : Table) (N : Nat) : Nat := (t.sel.idx N).length
+
+
+def allIn (lo hi : Nat) (p : Nat → Bool) : Bool := (List.range' lo (hi - lo)).all p
+
+/-- cells of `xs[lo:hi]` are in non-decreasing key order -/
+def sortedSegB (xs : List Cell) (lo hi : Nat) : Bool :=
+  allIn lo hi (fun i => allIn lo hi (fun j => !(decide (i < j)) || !((cellAt xs j).key.lt (cellAt xs i).key)))
+
+/-- the bisections work on `xs[lo:hi]` for the probes `vs`: segment inside the column, not empty
+(unless guarded, P12), sorted (P13/P14), no `None`, cells and probes mutually comparable -/
+def probeOKB (cfg : Cfg) (xs : List Cell) (lo hi : Nat) (vs : List Cell) : Bool :=
+  decide (lo ≤ hi) && decide (hi ≤ xs.length) && (cfg.guardEmpty || decide (lo < hi)) && sortedSegB xs lo hi
+  && allIn lo hi (fun i => (cellAt xs i).key != Key.none)
+  && vs.all (fun v => allIn lo hi (fun i => (cellAt xs i).key.comparable v.key))
+  && vs.all (fun v => v.key != Key.none)
+
+/-- consecutive segments covering `[a,b)` -/
+def segsB : List (Nat × Nat) → Nat → Nat → Bool
+  | [], a, b => a == b
+  | (l, h) :: r, a, b => l == a && decide (a ≤ h) && segsB r h b
+
+def isOrderOp : Op → Bool
+  | .lt | .le | .gt | .ge => true
+  | _ => false
+
+/-- the plain test on this cell is an order question: cell not `None`, comparable with the probes,
+no `Missing` probe under an order comparison -/
+def cellOKB (op : Op) (a : ArgV) (c : Cell) : Bool :=
+  c.key != Key.none && (probesOf a).all (fun v => c.key.comparable v.key)
+  && (!(isOrderOp op) || (probesOf a).all (fun v => v.key != Key.missing))
+
+def distinctKeysB : List Cell → Bool
+  | [] => true
+  | v :: vs => vs.all (fun w => v.key != w.key) && distinctKeysB vs
+
+/-- `<=` / `>=` on the scan path do not meet `Missing` unless repaired (P11) -/
+def leGeOKB (cfg : Cfg) (op : Op) (a : ArgV) (col : List Cell) : Bool :=
+  let noMissing := col.all (fun c => c.key != Key.missing) && (probesOf a).all (fun v => v.key != Key.missing)
+  (op != Op.le || cfg.missingLe || noMissing) && (op != Op.ge || cfg.missingGe || noMissing)
+
+def isOk {α} : Except Err α → Bool
+  | .ok _ => true
+  | .error _ => false
+
+/-- hypotheses for one keyword (see `KwOK` in `Lemmas/C17.lean` for the same as a proposition) -/
+def kwOKB (cfg : Cfg) (t : Table) (lohis : List (Nat × List (Nat × Nat))) (m : Nat) (pos : Option Op)
+    (kw : Nat × Arg) : Bool :=
+  t.columns.contains kw.1 &&
+  (match kw.2 with | .dict .notin _ => cfg.notinKey | _ => true) &&
+  (match (condOf pos kw).test with
+   | .fn _ => true
+   | .cmp op a =>
+     argShape op a &&
+     (if t.indexes.contains kw.1 then
+        match dictGet lohis kw.1 with
+        | .error _ => false
+        | .ok segs =>
+          segsB segs 0 m && segs.all (fun p => probeOKB cfg (t.vcol kw.1) p.1 p.2 (probesOf a))
+          && allComparable (probesOf a)
+          && (op != Op.isin || cfg.dedupIn || distinctKeysB (probesOf a))
+          && allIn 0 m (fun i => cellOKB op a (cellAt (t.vcol kw.1) i))
+      else leGeOKB cfg op a (t.vcol kw.1)))
+
+def isVal : Arg → Bool
+  | .val _ => true
+  | _ => false
+
+def isDict : Arg → Bool
+  | .dict _ _ => true
+  | _ => false
+
+/-- P10: no plain argument after a `{op: value}` argument unless the operator is local -/
+def noLeakB (cfg : Cfg) : List (Nat × Arg) → Bool
+  | [] => true
+  | kw :: rest => (cfg.localOp || !(isDict kw.2) || rest.all (fun k => !(isVal k.2))) && noLeakB cfg rest
+
+def strictIncB : List Nat → Bool
+  | [] => true
+  | x :: xs => xs.all (fun y => decide (x < y)) && strictIncB xs
+
+/-- stored lists of equal length `N`, every column of `_columns` stored, selection increasing and inside -/
+def tableOKB (t : Table) (N : Nat) : Bool :=
+  t.data.all (fun p => p.2.length == N) && t.columns.all (fun c => isOk (lookupCol t.data c))
+  && strictIncB (t.sel.idx N) && (t.sel.idx N).all (fun j => decide (j < N))
+
+/-- all hypotheses of `where_eq_spec` for the call `t.where(None, pos, **kws)` -/
+def whereWF (cfg : Cfg) (t : Table) (pos : Option Op) (kws : List (Nat × Arg)) : Bool :=
+  match t.data with
+  | [] => false
+  | (_, b) :: _ =>
+    tableOKB t b.length && !kws.isEmpty && noLeakB cfg kws &&
+    (match t.calcLohis cfg with
+     | .error _ => false
+     | .ok lohis => kws.all (kwOKB cfg t lohis (t.m b.length) pos))
 
 /-- lexicographic `<` of two rows on the columns `ks` (positions in the row) -/
 def lexLt (ks : List Nat) (r s : List Cell) : Bool :=
